@@ -1040,7 +1040,9 @@ func (agg *aggregate) Process(ctx context.Context, man gdbi.Manager, in gdbi.InP
 					if val != nil {
 						fval, err := cast.ToFloat64E(val)
 						if err != nil {
+							// not a numeric value: report it, do not count it as 0
 							outErr = fmt.Errorf("histogram aggregation: can't convert %v to float64", val)
+							continue
 						}
 						fieldValues = append(fieldValues, fval)
 						if c > maxValues {
